@@ -9,14 +9,14 @@ CONFIG = dict(
                "checker accepts every model schedule of every case without purge-class operations and without BMP connections "
                "(the full statement is refuted in Lean by the purge-class witness, finding S28b).  The model is tied to the code "
                "by running the REAL TableManager, the REAL Global peer table, the REAL PeerSession::finish_session teardown and "
-               "the REAL BmpClient::serve (on a loopback TCP connection whose bytes are decoded) under a deterministic scheduler "
+               "the REAL BmpClient::serve (on a loopback TCP connection whose bytes are decoded), the REAL MrtDumper::serve (BGP4MP records read back from its file) and the REAL gRPC watch_event handler (response stream polled) under a deterministic scheduler "
                "that releases one OS thread at a time between the cfg-guarded scheduling points in table_manager.rs, on the same "
                "schedules as the model, diffing every received event history, every BMP message written, return values and the "
                "final iter_reach/iter_reach_post; the reference checker is the oracle on the real observations.",
     level_note="Theorem-backed: channel subscribers (TableManager::subscribe) under insert/remove/soft-reset-in (any thread)/"
                "policy change/session up/non-retaining down/subscribe/unsubscribe.  Hypothesis-backed (model = implementation on the "
-               "generated stream + oracle on the real bytes, no theorem): the BMP-connection clause (what BmpClient::serve writes = "
-               "RIB) and the purge class (GR-retaining session end, drop_stale_families, drop_families, mark_llgr_stale, "
+               "generated stream + oracle on the real bytes, no theorem): the three consumer clauses (what BmpClient::serve writes, what the gRPC WatchEvent stream carries, the last BGP4MP "
+               "record of an MRT updates dump = RIB) and the purge class (GR-retaining session end, drop_stale_families, drop_families, mark_llgr_stale, "
                "drop_llgr_stale_families), where the property fails (open findings S28b, S28e).  Trusted: Lean kernel; axioms "
                "propext/Classical.choice/Quot.sound; hand-written model; harness glue (session establishment = session_addrs store "
                "then peer_up, transcribed from apply_outputs/on_established because on_established needs a live TCP stream; fresh "
@@ -24,8 +24,8 @@ CONFIG = dict(
                "decoding of the loopback bytes with the repo's own BGP parser; Loc-RIB/Adj-RIB-Out/EOR events dropped; event order "
                "across different keys projected away).  Modelled, not verified: memory ordering below Mutex/ArcSwap operations; "
                "interleavings inside a critical section between the two notify calls and the table mutation; the load-to-send window "
-               "inside peer_up/peer_down; the window between EndOfSnapshot and serve's read of the peer table; add-path peers "
-               "(register_peer is never called, the addpath flag of every event is checked to be false); MRT and gRPC watch consumers.",
+               "inside peer_up/peer_down; the window between EndOfSnapshot and serve's read of the peer table; the API path of a watch table event carries no next hop (the observed value is completed from the MED); an MRT updates dump has no "
+               "record for a session end, so it is judged only for peers that never end a session.",
     lean_modules=["Rbgp.Monitor.Props"],
     theorems=[
         "Rbgp.Monitor.Props.check_run_ok_partial",
@@ -42,7 +42,7 @@ CONFIG = dict(
     ],
     harness=dict(kind="daemon", test="event::verif_event::c18::verif_main"),
     profiles=["debug"],
-    n_quick=3000, n_thorough=120000, shards=12,
+    n_quick=3000, n_thorough=150000, shards=12,
     nontrivial_re=r"\(hist \(\([0-9wd]|\(\(\) \([0-9wd]|\(whist \(\([0-9wd]",
     rule="random cases: 1-3 shards, 1-3 writer sessions (up / ins / rem over IPv4 and IPv6 prefixes with distinct next hops / "
          "soft-reset-in of any peer from any thread / import-policy change / down, colliding 2x3x2 key domain per writer, prefix "
@@ -54,8 +54,9 @@ CONFIG = dict(
          "malformed stream; thorough tier adds ALL schedules of curated 2-shard x 2-writer x 3-op programs with a snapshot "
          "subscriber, a no-snapshot subscriber, a BMP connection, a prefix limit and an unsubscribe (coarse) and of tiny programs "
          "at fine granularity; non-trivial = some subscription received a route event; distinct = distinct case line",
-    expect_tokens=["limit", "(up ", "(down ", "eos", " w", " d", "(fwd (up", "(down 0)))) (rib", "t f (ctl", " f t (ctl",
-                   "(none none)", "(rows 0 0)", "(hist)", "(bmp ", "(wctl ((up 0) (down 0))", "(wctl ((up 0))", "31", "20"],
+    expect_tokens=["limit", "(up ", "(down ", "eos", " w", " d", "(fwd (up", "(down 0)) (aps", "t f (ctl", " f t (ctl",
+                   "(none none)", "(rows 0 0)", "(hist)", "(bmp ", "(wctl ((up 0) (down 0))", "(wctl ((up 0))", "31", "20",
+                   "(mrt ", "(watch ", " t t (whist", " f f (whist", "(aps ((t", "((t) (t))"],
     trusted_base=["model Rbgp/Monitor/Model.lean of daemon/src/table_manager.rs (subscribe/unsubscribe/insert_route/remove_route/"
                   "soft_reset_in/unregister_peer/drop_families/drop_stale_families/mark_llgr_stale/drop_llgr_stale_families/peer_up/"
                   "peer_down) and of bmp.rs BmpClient::serve (apply_snapshot, PeerUp burst, flush_peer_snapshot, send_peer_up/down)",
@@ -72,9 +73,8 @@ CONFIG = dict(
                            "the pre- and post-policy notification of one insert): they commute in the fold",
                            "the window between subscribers.load() and the sends inside peer_up/peer_down (one atomic step in the model)",
                            "the window between EndOfSnapshot and serve's read of the global peer table (one atomic step)",
-                           "session establishment (on_established: register_peer + peer_up) is reduced to session_addrs store + peer_up; "
-                           "add-path peers, MRT dumper and gRPC watch consumers are not exercised",
-                           "the BMP-connection clause and the purge class are hypothesis-backed (no theorem)"],
+                           "session establishment (on_established) is reduced to session_addrs store + register_peer (with the peer's ADD-PATH families) + peer_up",
+                           "the consumer clauses (BMP connection, MRT dump, gRPC watch stream) and the purge class are hypothesis-backed (no theorem)"],
     assumptions=["a peer address is owned by one session task at a time (writer thread i = peer i): sessions of the same peer are sequential",
                  "the BMP-connection clause is judged only when every session announces routes between its up and its down"],
     claimed=True,
@@ -118,8 +118,9 @@ def w_ops(r, n, nops, structured, writers=None):
 
 
 def s_ops(r):
-    if r.chance(1, 3):
-        return r.pick([["bmp"], ["bmp"], ["(sub t)", "bmp"], ["bmp", "(sub f)"]])
+    if r.chance(2, 5):
+        return r.pick([["bmp"], ["bmp"], ["(sub t)", "bmp"], ["bmp", "(sub f)"], ["mrt"], ["mrt", "(sub t)"],
+                       ["(watch t f)"], ["(watch t t)"], ["(watch f f)"], ["(watch f t)"], ["(watch t f)", "mrt"]])
     x = r.below(10)
     if x < 5:
         return ["(sub t)"]
@@ -151,10 +152,11 @@ def rand_sched(r, nth, length):
 
 
 def case_str(n, gran, limit, threads, sched):
-    if any(o == "bmp" for _, ops in threads for o in ops):
+    if any(o in ("bmp", "mrt") or o.startswith("(watch") for _, ops in threads for o in ops):
         # a BMP connection of a peer without ADD-PATH carries no path ids
         import re as _re
         threads = [(k, [_re.sub(r"^\((ins|rem) (\d+) (\d+) \d+", r"(\1 \2 \3 0", o) for o in ops]) for k, ops in threads]
+    threads = [(("wa" if k == "w" and (hash((len(ops), i)) + len(sched)) % 3 == 0 else k), ops) for i, (k, ops) in enumerate(threads)]
     return "(case (cfg %d %d %d) (threads %s) (sched %s))" % (
         n, gran, limit, " ".join("(%s)" % " ".join([k] + ops) for k, ops in threads), " ".join(map(str, sched)))
 
@@ -217,7 +219,8 @@ def gen_peers(r):
             else:
                 ops.append("(ins %d %d 0 %d)" % (r.below(n), r.pick([0, 2]), 1 + r.below(9)))
         threads.append(("w", ops))
-    threads.append(("s", r.pick([["(sub f)"], ["(sub t)"], ["bmp"], ["bmp"], ["(sub f)", "unsub", "(sub t)"], ["(sub t)", "unsub", "bmp"]])))
+    threads.append(("s", r.pick([["(sub f)"], ["(sub t)"], ["bmp"], ["bmp"], ["(watch t f)"], ["(watch f f)"], ["mrt"],
+                                 ["(sub f)", "unsub", "(sub t)"], ["(sub t)", "unsub", "bmp"]])))
     if r.chance(1, 2):
         threads.reverse()
     return case_str(n, 0, 0, threads, [r.below(len(threads)) for _ in range(8 + r.below(20))])
@@ -232,7 +235,7 @@ def gen_purge(r):
     tail = r.pick([["gdown", "purge"], ["gdown", "up", "(ins 0 0 0 3)", "purge"], ["gdown", "dropfam"],
                    ["gdown", "llgr", "lpurge"], ["dropfam"], ["gdown", "up", "purge", "down"], ["llgr", "lpurge"]])
     ops += tail
-    threads = [("w", ops), ("s", r.pick([["(sub t)"], ["(sub t)"], ["bmp"], ["(sub f)"]]))]
+    threads = [("w", ops), ("s", r.pick([["(sub t)"], ["(sub t)"], ["bmp"], ["(sub f)"], ["(watch t f)"]]))]
     if r.chance(1, 3):
         threads.insert(1, ("w", w_ops(r, n, 1 + r.below(3), True, [0, 1])))
     lead = r.below(len(ops) * (2 if n == 2 else 1) + 3)
@@ -273,7 +276,11 @@ def segs_coarse(op, n):
     if op == "unsub" or op.startswith("(ins") or op.startswith("(rem") or op.startswith("(pol"):
         return 1
     if op == "up":
+        return n + 1
+    if op == "mrt" or op.startswith("(watch f"):
         return 2
+    if op.startswith("(watch t"):
+        return n + 1
     if op == "sr" or op.startswith("(sr"):
         return n
     if op == "down":
@@ -299,8 +306,10 @@ EXH_PROGRAMS = [
 EXH_MORE = [
     # (limit, writer 0, writer 1, subscriber): no-snapshot subscriber, BMP connection, prefix limit, unsubscribe
     (0, ["(ins 0 0 0 1)", "(ins 1 0 0 2)", "(rem 0 0 0)"], ["(ins 0 0 0 3)", "(ins 1 0 0 4)", "(rem 1 0 0)"], ["(sub f)"]),
-    (0, ["up", "(ins 0 0 0 1)", "down"], ["up", "(ins 1 2 0 4)"], ["bmp"]),
-    (0, ["up", "(ins 1 0 0 1)", "down", "up"], ["(pol tag)"], ["bmp"]),
+    (0, ["up", "(ins 0 0 0 1)", "down"], ["(ins 1 2 0 4)"], ["bmp"]),
+    (0, ["up", "(ins 0 0 0 1)", "down"], ["(pol tag)", "(sr 0)"], ["(watch t t)"]),
+    (0, ["(ins 0 0 0 1)", "(ins 1 2 0 2)", "(rem 0 0 0)"], ["(ins 0 0 0 3)", "(ins 1 0 0 4)"], ["mrt"]),
+    (0, ["up", "(ins 1 0 0 1)", "down"], ["(pol tag)"], ["(watch t f)"]),
     (1, ["(ins 0 0 0 1)", "(ins 1 0 0 2)", "(rem 0 0 0)"], ["(ins 0 1 0 3)", "(ins 1 0 0 4)", "(rem 0 1 0)"], ["(sub t)"]),
     (0, ["(ins 0 0 0 1)", "(ins 1 0 0 2)", "(rem 0 0 0)"], ["(ins 0 0 0 3)", "(rem 0 0 0)", "(ins 1 2 0 4)"], ["(sub t)", "unsub"]),
     (0, ["(ins 0 0 0 1)", "(pol reject)", "(rem 0 0 0)"], ["(sr 0)", "(ins 1 0 0 4)"], ["(sub t)"]),
